@@ -1,12 +1,18 @@
 #!/bin/bash
 # Runs every seeded change against the check of its own property (quick tier,
 # on a scratch copy of /repo) and writes seeded/RESULTS.txt.
+# usage: tools/seed_matrix.sh [parallel-jobs]   (default 4)
 cd /verif
-: > seeded/RESULTS.txt
-for d in seeded/*/; do
+P=${1:-4}
+one() {
+  d=$1
   id=$(basename $d); prop=$(python3 -c "import json;print(json.load(open('$d/meta.json'))['property'])")
   out=$(tools/try_patch.sh $d/patch.diff $prop 2>&1)
   r=$(echo "$out" | grep -E "rc=|APPLY" | head -1 | sed 's/.*rc=/rc=/')
   mech=$(echo "$out" | grep -o '"mech": "[^"]*"' | sort | uniq -c | sort -rn | head -2 | tr -s ' ' | tr '\n' ';')
-  echo "$id $prop $r $mech" | tee -a seeded/RESULTS.txt
-done
+  echo "$id $prop $r $mech"
+}
+export -f one
+ls -d seeded/*/ | xargs -P "$P" -I{} bash -c 'one {}' | sort > seeded/RESULTS.txt.new
+mv seeded/RESULTS.txt.new seeded/RESULTS.txt
+cat seeded/RESULTS.txt
